@@ -77,7 +77,7 @@ COQ_HEADER = '''From AF Require Import Lib.Bytes Lib.Path Lib.Ops Model.Archive 
 Local Open Scope Z_scope.
 Definition vm_ok (c : N * bool * archive * list op * Z) : bool :=
   let '(_, zip, a, prog, expect) := c in
-  Z.eqb (digest (if zip then zip_run false a prog else tar_run false a prog)) expect.
+  Z.eqb (adigest (if zip then zip_run false a prog else tar_run false a prog)) expect.
 Definition vm_id (c : N * bool * archive * list op * Z) : N := let '(i, _, _, _, _) := c in i.
 '''
 
